@@ -1,8 +1,9 @@
 // C20, controlled-scheduler part: authentication on the wire. One real handshake of the
 // instrumented gocql (gocql.VerifDial) over an in-memory pipe against a scripted node that answers
 // STARTUP with AUTHENTICATE(class). Free choices (all explored): the class the node names, how the
-// client is configured (no authenticator / PasswordAuthenticator with the default or a custom
-// allow-list), user name and password (empty, ASCII, non-ASCII) and the node's answer to the
+// client is configured (no authenticator / ClusterConfig.Authenticator = PasswordAuthenticator with the
+// default or a custom allow-list / ClusterConfig.AuthProvider returning such an authenticator,
+// returning (nil, nil) for the host, or returning an error), user name and password (empty, ASCII, non-ASCII) and the node's answer to the
 // AUTH_RESPONSE (AUTH_SUCCESS / AUTH_CHALLENGE then AUTH_SUCCESS / ERROR bad credentials).
 // The oracle reads what the node received and the complete client->server byte log.
 package main
@@ -41,6 +42,12 @@ var defaultApproved = []string{
 	"com.instaclustr.cassandra.auth.InstaclustrPasswordAuthenticator",
 }
 
+// observations the outcome classifier looks for
+const (
+	obsNoCreds       = "no-credentials-for-the-host+node-demands-authentication"
+	obsChallengeSent = "node-sent-AUTH_CHALLENGE"
+)
+
 const noAuth = "<READY: the node demands no authentication>"
 
 var classes = []string{
@@ -53,15 +60,32 @@ var classes = []string{
 	noAuth,
 }
 
+// how the client's authenticator is configured. auth: the configuration resolves to credentials for the host
+// being dialled (only then may an AUTH_RESPONSE ever be sent); provider: through ClusterConfig.AuthProvider
+// instead of ClusterConfig.Authenticator
+const (
+	provNone  = iota // ClusterConfig.Authenticator (or nothing)
+	provAuth         // AuthProvider returns the PasswordAuthenticator
+	provNil          // AuthProvider returns (nil, nil): no credentials for this host
+	provError        // AuthProvider returns (nil, error)
+)
+
 var clients = []struct {
-	name    string
-	auth    bool
-	allowed []string
+	name     string
+	auth     bool
+	allowed  []string
+	provider int
 }{
-	{"no-authenticator", false, nil},
-	{"password/default-list", true, nil},
-	{"password/custom-list", true, []string{"com.example.Custom", "com.example.Other"}},
+	{"no-authenticator", false, nil, provNone},
+	{"password/default-list", true, nil, provNone},
+	{"password/custom-list", true, []string{"com.example.Custom", "com.example.Other"}, provNone},
+	{"provider->password/default-list", true, nil, provAuth},
+	{"provider->password/custom-list", true, []string{"com.example.Custom", "com.example.Other"}, provAuth},
+	{"provider->nil,nil", false, nil, provNil},
+	{"provider->nil,error", false, nil, provError},
 }
+
+var errProvider = fmt.Errorf("c20: the AuthProvider has no credentials for this host")
 
 var creds = []struct{ user, pass string }{
 	{"", ""},
@@ -103,12 +127,21 @@ func onOutcome(name string) func(o *vs.Outcome) []vs.Failure {
 		case vs.Deadlock:
 			return []vs.Failure{{Key: "deadlock:" + name, Detail: "blocked: " + strings.Join(o.Blocked, "; ")}}
 		case vs.Panicked:
-			challenge := false
+			challenge, noCreds := false, false
 			for _, s := range o.Observed {
-				if strings.Contains(s, "followup=challenge-then-success") {
+				if s == obsChallengeSent {
 					challenge = true
 				}
+				if s == obsNoCreds {
+					noCreds = true
+				}
 			}
+			if noCreds {
+				// "a server that demands authentication from a client configured without credentials gets an error"
+				return []vs.Failure{{Key: "c20:auth:panic-instead-of-an-error-for-AUTHENTICATE-without-credentials",
+					Detail: fmt.Sprintf("the node demanded authentication, the configuration yields no authenticator for the host, and the driver panicked at %s: %v\n%s", o.PanicSite, o.PanicVal, o.Stack)}}
+			}
+			// tolerated only once the node has really sent an AUTH_CHALLENGE (the C05 defect cannot arise before)
 			if challenge && strings.Contains(o.PanicSite, "authenticateHandshake") && !alarmC05Panic {
 				return nil
 			}
@@ -133,6 +166,11 @@ func (c *c20cfg) body() {
 	}
 	desc := fmt.Sprintf("v%d AUTHENTICATE(%q) client=%s user=%q password=%q node-follow-up=%s", c.proto, class, cl.name, cr.user, cr.pass, follow)
 	vs.Observe("class=%q client=%s user=%q followup=%s", class, cl.name, cr.user, follow)
+
+	if !cl.auth && class != noAuth {
+		// the property demands an error here: a panic on the handshake thread is not one (see onOutcome)
+		vs.Observe(obsNoCreds)
+	}
 
 	approved := cl.auth && class != noAuth && approvedBy(class, cl.allowed)
 	wantToken := append(append(append([]byte{0}, cr.user...), 0), cr.pass...)
@@ -170,6 +208,7 @@ func (c *c20cfg) body() {
 				return vnode.Reply{Msg: &frame.Error{Code: 0x0100, Message: "Provided username and/or password are incorrect"}}
 			case follow == "challenge-then-success" && authResponses == 1:
 				sentChallenge = true
+				vs.Observe(obsChallengeSent)
 				return vnode.Reply{Msg: &frame.AuthChallenge{Token: []byte("verif-challenge")}}
 			}
 			sentSuccess = true
@@ -198,8 +237,18 @@ func (c *c20cfg) body() {
 	cluster.Timeout = 100 * time.Millisecond
 	cluster.ConnectTimeout = 100 * time.Millisecond
 	cluster.WriteCoalesceWaitTime = 0
-	if cl.auth {
-		cluster.Authenticator = gocql.PasswordAuthenticator{Username: cr.user, Password: cr.pass, AllowedAuthenticators: cl.allowed}
+	pa := gocql.PasswordAuthenticator{Username: cr.user, Password: cr.pass, AllowedAuthenticators: cl.allowed}
+	switch cl.provider {
+	case provNone:
+		if cl.auth {
+			cluster.Authenticator = pa
+		}
+	case provAuth:
+		cluster.AuthProvider = func(*gocql.HostInfo) (gocql.Authenticator, error) { return pa, nil }
+	case provNil:
+		cluster.AuthProvider = func(*gocql.HostInfo) (gocql.Authenticator, error) { return nil, nil }
+	case provError:
+		cluster.AuthProvider = func(*gocql.HostInfo) (gocql.Authenticator, error) { return nil, errProvider }
 	}
 	live, derr := gocql.VerifDial(client, *cluster, true)
 	queryRes := "-"
@@ -263,7 +312,7 @@ func main() {
 		}})
 	}
 	mcreport.Main("C20", "exploration",
-		"controlled-scheduler part (authentication on the wire): free choices, all explored: class named in AUTHENTICATE {PasswordAuthenticator, DseAuthenticator (both on the built-in list), com.example.Custom, empty, unknown, approved name in lower case, none (READY)} x client {no authenticator, PasswordAuthenticator with empty allow-list, with a custom allow-list} x user/password {empty, ASCII, non-ASCII} x node's answer to AUTH_RESPONSE {AUTH_SUCCESS, AUTH_CHALLENGE then AUTH_SUCCESS, ERROR bad credentials} x protocol {4,3,2}, each through the real handshake (VerifDial) on the instrumented Conn, followed by one query when a connection is returned; schedules/timers delay-bounded (at most T departures from the default schedule). Oracle (checked as each frame arrives at the node, and on the complete client->server byte log): AUTH_RESPONSE only from a client with an authenticator and only for a class on the applicable approved list; its token is exactly 00 user 00 password; the password bytes occur nowhere else on the wire; AUTHENTICATE with no configured authenticator => error, nothing but OPTIONS/STARTUP sent; a connection is returned only after the node sent AUTH_SUCCESS; no request before the node declared the connection ready",
+		"controlled-scheduler part (authentication on the wire): free choices, all explored: class named in AUTHENTICATE {PasswordAuthenticator, DseAuthenticator (both on the built-in list), com.example.Custom, empty, unknown, approved name in lower case, none (READY: the node demands no authentication)} x how the client's authenticator is configured {nothing; ClusterConfig.Authenticator = PasswordAuthenticator with empty / with a custom allow-list; ClusterConfig.AuthProvider returning such a PasswordAuthenticator (empty / custom allow-list); AuthProvider returning (nil, nil) for the host; AuthProvider returning an error} x user/password {empty, ASCII, non-ASCII} x node's answer to AUTH_RESPONSE {AUTH_SUCCESS, AUTH_CHALLENGE then AUTH_SUCCESS, ERROR bad credentials} x protocol {4,3,2} (285 configurations per version), each through the real handshake (VerifDial) on the instrumented Conn, followed by one query when a connection is returned; schedules/timers delay-bounded (at most T departures from the default schedule). Oracle (checked as each frame arrives at the node, and on the complete client->server byte log): AUTH_RESPONSE only from a client whose configuration yields an authenticator for the host and only for a class on the applicable approved list; its token is exactly 00 user 00 password; the password bytes occur nowhere else on the wire; AUTHENTICATE when the configuration yields no authenticator (none configured, provider returned nil or an error) => an error - not a panic - and nothing but OPTIONS/STARTUP sent; a connection is returned only after the node sent AUTH_SUCCESS; no request before the node declared the connection ready",
 		[]string{"one connection, connect/request timeout 100ms, horizon 700ms; the scripted node decodes requests with the independent reference decoder",
 			"the panic of the unchanged tree on AUTH_CHALLENGE (nil challenger) violates C05, not C20: counted here as an outcome, alarmed by C05's conversation sub-suite"},
 		defs, 45*time.Second, 8*time.Minute, nil)
